@@ -101,7 +101,7 @@ Record xtra := mk_x {
   x_ah : list ahandle;               (* state.AccountState handles, in creation order *)
   x_hst : list hstate;               (* parallel to d_handles *)
   x_raw : list (N * N);              (* ContractState.SetRawKV: written to the store at once *)
-  x_codes : list N;                  (* bytecode / source stored by SetCode (hash -> bytes), at once *)
+  x_codes : list (bool * N);         (* bytecode (true) / source (false) stored by SetCode (hash -> bytes), at once *)
   x_roots : list amap;               (* account tries persisted by Commit, in commit order *)
   x_ssnaps : list nat;               (* StateDB.Snapshot values *)
   x_last : list N                    (* result of the last result-returning call *)
@@ -448,7 +448,7 @@ Definition step (d : sdb) (o : op) : res sdb :=
       let x := d_x d1 in
       let hs' := mk_hst (hs_ptr hs) (fst (g (hs_f hs, hs_root hs))) (hs_root hs) (Some c) in
       Ok (set_x d1 (mk_x (x_ah x) (list_set (x_hst x) h hs') (x_raw x)
-                         (x_codes x ++ c :: (if (s =? 0)%N then [] else [s])) (x_roots x) (x_ssnaps x) (x_last x))))
+                         (x_codes x ++ (true, c) :: (if (s =? 0)%N then [] else [(false, s)])) (x_roots x) (x_ssnaps x) (x_last x))))
   | OGetCode h =>
       bind (of_opt (nth_error (x_hst (d_x d)) h)) (fun hs =>
       match hs_code hs with
@@ -456,7 +456,7 @@ Definition step (d : sdb) (o : op) : res sdb :=
       | None =>
           let c := f_code (hs_f hs) in
           if (c =? 0)%N then Ok (set_last d [0%N])
-          else if existsb (N.eqb c) (x_codes (d_x d))
+          else if existsb (fun bc => fst bc && N.eqb c (snd bc)) (x_codes (d_x d))
                then Ok (set_last (set_hst d (list_set (x_hst (d_x d)) h (mk_hst (hs_ptr hs) (hs_f hs) (hs_root hs) (Some c)))) [1%N; c])
                else Ok (set_last d [0%N])
       end)
